@@ -45,6 +45,10 @@ PROFILES = {
     'c09rr': {'n_nodes': [2, 3, 3], 'n_classes': [2, 3], 'routing_kinds': ['tm', 'tm', 'nr'], 'p_prio': 1.0, 'force_distinct_prio': True, 'p_prio_preempt': 1.0,
               'prio_preempt_opts': ['reroute', 'reroute', 'resume'], 'p_cct': 1.0, 'p_ccm': 0.3, 'p_kinds': (0.85, 0.0, 0.15, 0.0), 'sched_preempt': [False, 'reroute'],
               'arr_scale': 0.55, 'p_ps': 0.0, 'p_qcap': 0.1},
+    # reroute pre-emption into nodes with small waiting rooms (often full) under probabilistic routing
+    'c03rr': {'n_nodes': [2, 3, 3, 4], 'n_classes': [2, 3], 'routing_kinds': ['tm', 'tm', 'nr'], 'p_prio': 1.0, 'force_distinct_prio': True, 'p_prio_preempt': 1.0,
+              'prio_preempt_opts': ['reroute', 'reroute', 'reroute', 'resume'], 'p_kinds': (0.85, 0.0, 0.15, 0.0), 'sched_preempt': [False, 'reroute'],
+              'arr_scale': 0.5, 'p_ps': 0.0, 'p_qcap': 0.75, 'p_qcap_sched': 0.5, 'qcaps': [0, 1, 1, 2]},
     'c11': {'n_classes': [2, 3, 3], 'p_prio': 1.0, 'force_distinct_prio': True, 'p_prio_preempt': 1.0,
             'prio_preempt_opts': ['resume', 'restart', 'resample', 'reroute', 'resume', 'restart', 'resample'],
             'p_qcap': 0.0, 'p_qcap_sched': 0.0, 'p_syscap': 0.0, 'p_kinds': (1.0, 0.0, 0.0, 0.0), 'zero': False, 'p_ps': 0.0,
@@ -91,7 +95,7 @@ def scope_c11(spec, f):
 PLANS = {
     'C01': ([('generic', 4), ('lattice', 2), ('ring', 2), ('c11', 1), ('c12', 1), ('slotall', 1), ('infall', 1), ('c02ps', 1), ('linger', 1)], scope_all, ['kinds.accept']),
     'C02': ([('generic', 4), ('lattice', 2), ('c12', 2), ('c11', 1), ('ring', 1), ('c02ps', 1), ('exactall', 1), ('linger', 1)], scope_all, ['C02.records']),
-    'C03': ([('generic', 4), ('ring', 2), ('c11', 2), ('c13', 1), ('c12', 1), ('linger', 1)], scope_all, ['C03.records']),
+    'C03': ([('generic', 4), ('ring', 2), ('c11', 2), ('c13', 1), ('c12', 1), ('linger', 1), ('c03rr', 2)], scope_all, ['C03.records']),
     'C04': ([('generic', 3), ('c04util', 4), ('ring', 2), ('c12', 1), ('linger', 1)], scope_all, ['C04.attaches']),
     'C05': ([('c05', 5), ('generic', 3), ('c12', 1), ('c13', 1)], scope_all, ['C05.snapshots_with_waiting']),
     'C06': ([('c06', 7), ('generic', 3)], scope_c06, ['C06.arrivals_when_full']),
